@@ -101,14 +101,14 @@ TEXT["C06"] = dict(engine="seqmc", design_ref="DESIGN.md 6 C06",
           "instrumented element types) x every operation with every in-range and out-of-range argument, to a fixpoint - i.e. every finite "
           "operation sequence over the alphabet - (aliasing arguments, ranges through random-access, move and single-pass input iterators) plus every position at which an element copy/move/construction can throw; judged: size <= "
           "capacity, capacity fixed, unsatisfiable operations throw and leave the container unchanged, no unfilled slot visible, exact "
-          "element accounting (no leak, no double destroy), moved-from containers usable, no sanitizer report; every range length 0..1100 through range construction, copy, assignment and range append at three capacities",
+          "element accounting (no leak, no double destroy), moved-from containers usable, no sanitizer report; every range length 0..1100 through range construction, copy, assignment, range append, erase and emplace at three capacities; refused construction of a trivially copyable element at every position",
     note=_FV_NOTE)
 TEXT["C07"] = dict(engine="seqmc", design_ref="DESIGN.md 6 C07",
     technique="explicit-state BFS to a fixpoint over operation histories of the real container against a bounded std::vector reference",
     level="model checking of the implementation: from every reachable concrete state every operation is applied to the real fixed_vector and to "
           "a std::vector bounded by the capacity; after every transition size, [], at, forward and reverse iteration (all six iterator pairs "
           "and nitro::lang::reverse), data, front/back must agree; copies equal and independent, moves transfer the sequence, assignment "
-          "replaces the contents (all pairs of abstract-state representatives); every range length 0..1100 through range construction, copy, assignment and range append at three capacities",
+          "replaces the contents (all pairs of abstract-state representatives); every range length 0..1100 through range construction, copy, assignment, range append, erase and emplace at three capacities",
     note=_FV_NOTE)
 
 TEXT["C17"] = dict(engine="enum", design_ref="DESIGN.md 6 C17",
